@@ -340,7 +340,29 @@ def tabulate_corners(d):
     return out
 
 
-def emit(ex, corners, l1=None) -> str:
+def tabulate_api(d):
+    """G1: what the running gauss() does on the whole probed range: (dim, order) -> error class | (#points, #weights)"""
+    out = {}
+    for dim in PROBE_DIMS:
+        for o in PROBE_ORDERS:
+            if o == "max":
+                continue
+            r = impl_rule(d.quadrature.gauss, dim, o)
+            out[(dim, o)] = r if isinstance(r, Raised) else (len(r[0]), len(r[1]))
+    return out
+
+
+def emit_api(api) -> str:
+    L = ["/-- the probed range of `gauss(dim, order)` (G1, from the running code) -/",
+         "def probed : List (Nat × Nat) := [" + ", ".join(f"({a}, {b})" for a, b in sorted(api)) + "]",
+         "/-- the probed pairs the running `gauss` rejects, with the error class -/",
+         "def observedRaise : List (Nat × Nat × Err) := [" + ", ".join(f"({a}, {b}, .{v.cls})" for (a, b), v in sorted(api.items()) if isinstance(v, Raised)) + "]",
+         "/-- the probed pairs it accepts, with the number of points and weights returned -/",
+         "def observedAccept : List (Nat × Nat × Nat × Nat) := [" + ", ".join(f"({a}, {b}, {v[0]}, {v[1]})" for (a, b), v in sorted(api.items()) if not isinstance(v, Raised)) + "]"]
+    return "\n".join(L) + "\n"
+
+
+def emit(ex, corners, l1=None, api=None) -> str:
     L = ["import DarsiaModel.Quadrature", "namespace Darsia.Gen", "open Darsia Darsia.Quad", ""]
     L.append("def maxOrder : Nat → Option Nat")
     for dim, o in sorted(ex["max"].items()):
@@ -376,7 +398,7 @@ def emit(ex, corners, l1=None) -> str:
                  + "], [" + ", ".join(lean_expr(("rat", x)) for x in w) + "]⟩")
     L += [f"  | _ => .error .{ERRMAP.get(ex['default'], 'other')}", ""]
     L.append("def cornerDims : List Nat := [" + ", ".join(str(k) for k, v in sorted(corners.items()) if not isinstance(v, Raised)) + "]")
-    L += ["", emit_l1(l1), "end Darsia.Gen"]
+    L += ["", emit_l1(l1), emit_api(api or {}), "end Darsia.Gen"]
     return "\n".join(L) + "\n"
 
 
@@ -827,7 +849,7 @@ def run(ctx):
             ctx.cov["tie"] = "G2-unavailable, validated-against-running-code" if ok else "G2-unavailable, committed table does not match the running code"
         else:
             ctx.cov["tie"] = "G2 extraction from the source, validated against the running gauss()"
-            ctx.write_gen("QuadratureTables", emit(ex, tabulate_corners(d), l1))
+            ctx.write_gen("QuadratureTables", emit(ex, tabulate_corners(d), l1, tabulate_api(d)))
     ctx.prove("C15")
     if ex is not None:
         # which obligation fails (diagnostics; directs nothing - the oracle is exhaustive anyway)
